@@ -153,6 +153,23 @@ def gen_cases(tier, seed):
                 s['family'] = 'window'
                 s['yield'] = {'p': 0.0, 'window': {'file': line[0], 'lineno': line[1], 'nth': nth, 'name': f'{line[0]}:{line[1]}:{line[2]}', 'wait': 0.2}}
                 cases.append(s)
+    # the same windows over the workers' / monitor's code with one job failing (non-retryable) while its sibling jobs go on: the
+    # thread that reaches the line is held, e.g. between counting its failed job off and recording the failure
+    flines = [l for l in lines if l[2].startswith(('GetObjectWorker.', 'TransferMonitor.notify_', 'TransferState.'))]
+    for line in flines:
+        for nth in ((0, 1) if quick else (0, 1, 2, 3)):
+            for rep in range(1 if quick else 3):
+                s = copy.deepcopy(rng.choice(wbases))
+                s['seed'] = rng.randrange(1 << 30)
+                s['exit'] = rng.choice(['shutdown', 'with'])
+                s['family'] = 'window+fault'
+                tk = rng.randrange(len(s['transfers']))
+                sz = s['transfers'][tk]['size']
+                part = 8 * rng.randrange(0, max(1, (sz + 7) // 8)) if sz >= 16 else 'all'
+                s['plan'] = {'faults': [{'at': f't{tk}/s3:GetObject:{part}#0', 'phase': rng.choice(['before', 'after']), 'kind': rng.choice(['exc', 'client4xx']),
+                                         'tag': 'FAULT-ppw'}]}
+                s['yield'] = {'p': 0.0, 'window': {'file': line[0], 'lineno': line[1], 'nth': nth, 'name': f'{line[0]}:{line[1]}:{line[2]}', 'wait': 0.2}}
+                cases.append(s)
     # ... and one preemption INSIDE each read-modify-write statement of the shared monitor state (``jobs_to_complete -= 1``, the id
     # counter): the thread is held after it has read the old value, until the others have run as far as they can
     for site in yieldinj.rmw_sites(['processpool.py']):
